@@ -65,6 +65,7 @@ type PathResult struct {
 
 type Exec struct {
 	w       *World
+	wk      *Worker
 	tf      *TermFactory
 	solver  *Solver
 	harness *Harness
@@ -83,18 +84,18 @@ type Exec struct {
 	initDone map[*ssa.Package]bool
 	initing  bool
 
-	depth     int
-	instrs    int
-	maxInstrs int
-	unwind    int
-	mapOrder  string
-	frames    []*Frame
-	curPanic  *goPanicSig
+	depth        int
+	instrs       int
+	maxInstrs    int
+	unwind       int
+	mapOrder     string
+	frames       []*Frame
+	curPanic     *goPanicSig
 	recoverOwner []*Frame
-	known     map[string]bool
-	env       *EnvState
-	deadline  time.Time
-	wantWit   bool
+	known        map[string]bool
+	env          *EnvState
+	deadline     time.Time
+	wantWit      bool
 }
 
 func (ex *Exec) unmodelled(what string) {
@@ -296,7 +297,8 @@ func (ex *Exec) Assert(c *Term, label string) {
 	case RUnsat:
 		ex.res.Discharged++
 		ex.newLog = append(ex.newLog, Decision{'a', 1})
-		// c is implied; no need to add
+		// c is implied by the path condition; keep it as a lemma for later queries
+		ex.addPC(c)
 	case RSat:
 		ex.res.Violations = append(ex.res.Violations, Violation{
 			Harness: ex.harness.Name, Label: label, Kind: "assert", Pos: ex.curPos(),
@@ -338,11 +340,12 @@ func (ex *Exec) reportPanic(p *goPanicSig) {
 func (w *World) RunPath(wk *Worker, h *Harness, prefix []Decision) (res *PathResult) {
 	tf := wk.tf
 	tf.intern = map[string]*Term{}
+	tf.bytes = [256]*Term{}
 	tf.intern[tf.key(tf.T)] = tf.T
 	tf.intern[tf.key(tf.F)] = tf.F
 	wk.solver.Reset()
 	ex := &Exec{
-		w: w, tf: tf, solver: wk.solver, harness: h,
+		w: w, wk: wk, tf: tf, solver: wk.solver, harness: h,
 		log: prefix, inNames: map[string]int{},
 		globals: map[*ssa.Global]*Cell{}, initDone: map[*ssa.Package]bool{},
 		maxInstrs: h.MaxInstrs, unwind: h.Unwind, mapOrder: "insertion",
